@@ -218,7 +218,11 @@ def main(tier, replay=None):
             if l == 3 and len(rep.cov["samples"]) < 2:
                 rep.sample({"kind": ev["kind"], "objects": ev["objs"][:6], "eq_matrix": [r[:6] for r in ev["eq"][:6]], "hash_ids": ev["hash"][:6]})
     shutil.rmtree(rd, ignore_errors=True)
+    # sessions around hashing and the in-place IoContract.simplify(): "equal objects hash equally" at every point of a history
+    from props import c13
+    sess = c13.main(tier, None, prop=PROP, rep=rep) if not replay else {}
     return rep.finish({
+        "sessions": sess,
         "evaluations": n_ev,
         "distinct_nontrivial": len(nontriv),
         "traces_validated_against_impl": len(traces),
